@@ -1,3 +1,4 @@
+import TemplVerif.Generated.Skeletons
 import TemplVerif.Model.Quote
 import TemplVerif.Proofs.Quote
 import TemplVerif.Generated.HasChanged
@@ -165,5 +166,21 @@ theorem C16_watch_pinned :
 /-- Non-vacuity: a load, an early look (throttled: old lines are still allowed), a rewrite, a late look. -/
 example : Watch.Inv (Watch.loadMtime { mtime := 5, lines := [[97]] } 6) { mtime := 5, lines := [[97]] } := ⟨Nat.le_refl _, fun _ => rfl⟩
 example : (Watch.look Watch.loadMtime 100 (Watch.loadMtime { mtime := 5, lines := [[97]] } 6) { mtime := 50, lines := [[98]] } 150).lines = [[98]] := by decide
+
+-- BEGIN transcription pins (written by tools/mkpins.py)
+/-- T1, transcription pins: the control structure and calls (extract/skeleton.go) of the functions whose models
+    were written by hand are the ones the models were transcribed from:
+      cmd/templ/generatecmd/eventhandler.go FSEventHandler.UpsertHash
+      runtime/watchmode.go WriteString
+      runtime/watchmode.go cacheStrings
+      runtime/watchmode.go getWatchedStrings
+    A change of what one of them calls or how it branches breaks this theorem; the check then searches for a
+    failing input and reports either that or `no-failing-input-found`. -/
+theorem C16_transcription_pinned :
+    Generated.skel_events_UpsertHash = 1893232857796062501 ∧
+    Generated.skel_watch_WriteString = 10797578298239768643 ∧
+    Generated.skel_watch_cacheStrings = 8400153006987411092 ∧
+    Generated.skel_watch_getWatchedStrings = 2729183200917924902 := by decide
+-- END transcription pins
 
 end TemplVerif.Props.C16
